@@ -309,3 +309,41 @@ package st
 //@   opt: guarded=slots:mu;n:mu
 //@   requires t != nil
 //@   modifies *
+//@ func (*Sharded).IncrementAtomic
+//@   props: S01
+//@   level: PA
+//@   nosafe
+//@   opt: only=at-call
+//@   opt: lock-order=shard()
+//@   requires s != nil
+//@   modifies *
+//@   at-call read [read-locked] lockheld("shard()")
+//@   at-call write [same-section] lockheld("shard()") && lockepoch("shard()") == lockepochAt("shard()", "read")
+//@ func (*Sharded).IncrementSplit
+//@   props: S01
+//@   level: PA
+//@   nosafe
+//@   opt: only=at-call
+//@   opt: lock-order=shard()
+//@   requires s != nil
+//@   modifies *
+//@   at-call read [read-locked] lockheld("shard()")
+//@   at-call write [same-section] lockheld("shard()") && lockepoch("shard()") == lockepochAt("shard()", "read")
+//@ func (*Sharded).IncrementLateLock
+//@   props: S01
+//@   level: PA
+//@   nosafe
+//@   opt: only=at-call
+//@   opt: lock-order=shard()
+//@   requires s != nil
+//@   modifies *
+//@   at-call read [read-locked] lockheld("shard()")
+//@   at-call write [same-section] lockheld("shard()") && lockepoch("shard()") == lockepochAt("shard()", "read")
+//@ func (*Pair).LeakyLoop
+//@   props: S01
+//@   level: PA
+//@   nosafe
+//@   opt: only=lock-order
+//@   opt: lock-order=first<second
+//@   requires p != nil
+//@   modifies *
